@@ -285,9 +285,9 @@ prop("C10", level="exploration",
      technique="runtime monitoring: differential check of the victim's wire stream and listener notifications against reference model 2 while a second scripted peer sends Cancel/Update/New with the victim's request id at constructed lifecycle points (fabric gates, store gates, hook pauses); Go race detector",
      level_text=("Raw peer A's request is served by a real responder; raw peer X sends a Cancel, an Update (plain / asking to unpause / making the update "
                  "hook fail) or a New request (same or other root) carrying A's request id while A's response is queued (single worker held at a store "
-                 "gate), running (held at a store gate), paused (outgoing-block hook) or after the j-th response message. A's received metadata, blocks and "
+                 "gate), running (held at a store gate), paused (outgoing-block hook), after the j-th response message, or complete but unsent (connection to A stalled: state completing-send). A's received metadata, blocks and "
                  "final status must equal the responder's own traversal exactly, A must receive no extension data caused by X, and the completed / "
-                 "cancelled listeners must report exactly one completion with the wire status for (A, id)."),
+                 "cancelled listeners must report exactly one completion with the wire status for (A, id). After A's response has ended the responder must hold nothing for it (no entry under A in the reported states, connection protection released)."),
      level_note="The update hook registered on the responder reacts to the verification extension like a real consumer (unpause / terminate / answer).",
      rule=("One evaluation = one (DAG, store, selector, lifecycle point, attack kind) scenario. Non-trivial = the attacker's message was actually sent at the "
            "constructed point; distinct by case; distinct_sets.point_x_attack = distinct (lifecycle point, attack kind) pairs exercised (24 possible)."),
